@@ -1220,6 +1220,18 @@ impl InterfaceInner {
         let mut ip_repr = packet.ip_repr();
         assert!(!ip_repr.dst_addr().is_unspecified());
 
+        // The loopback address is what source address selection falls back to when the
+        // interface has no IPv6 address at all. It must never appear on a link as the
+        // source of a packet for another node (RFC 4291 § 2.5.3): drop such packets.
+        #[cfg(feature = "proto-ipv6")]
+        if let IpRepr::Ipv6(repr) = &ip_repr
+            && repr.src_addr.is_loopback()
+            && !repr.dst_addr.is_loopback()
+        {
+            net_debug!("dropping IPv6 packet with loopback source address");
+            return Ok(());
+        }
+
         // Dispatch IEEE802.15.4:
 
         #[cfg(feature = "medium-ieee802154")]
